@@ -214,7 +214,10 @@ Inductive op :=
 | OPm (path name : bytes) (args : list val)
 | OPg (path name : bytes)
 | OPs (path name : bytes) (v : val)
-| OSg (path name : bytes) (args : list val).
+| OSg (path name : bytes) (args : list val)
+| OPn (slot : bytes) (cached : bool) (path : bytes)
+| OQg (slot name : bytes)
+| OQs (slot name : bytes) (v : val).
 
 Definition opt_field (valid : bytes -> bool) (s : bytes) : option (option bytes) :=
   if lbeq s (B "-") then Some None else if valid s then Some (Some s) else None.
@@ -236,13 +239,20 @@ Definition parse_op (w : bytes) : option op :=
       else None
   | [k; p] => if lbeq k (B "i") && C10.Model.validate_object_path p then Some (OIntro p) else None
   | [k; x; p; n; a] =>
-      if ab x && C10.Model.validate_object_path p then
+      if lbeq k (B "pn") then
+        (* pn:<slot>:<a|b>:<c|n>:<path> *)
+        if ab p && (lbeq n (B "c") || lbeq n (B "n")) && C10.Model.validate_object_path a
+        then Some (OPn x (lbeq n (B "c")) a) else None
+      else if ab x && C10.Model.validate_object_path p then
         if lbeq k (B "pm") then option_map (OPm p n) (parse_args a)
         else if lbeq k (B "ps") then option_map (OPs p n) (parse_val a)
         else if lbeq k (B "sg") then option_map (OSg p n) (parse_args a)
         else None
       else None
-  | [k; x; p; n] => if lbeq k (B "pg") && ab x && C10.Model.validate_object_path p then Some (OPg p n) else None
+  | [k; x; p; n] =>
+      if lbeq k (B "qs") then option_map (OQs x p) (parse_val n)
+      else if lbeq k (B "pg") && ab x && C10.Model.validate_object_path p then Some (OPg p n) else None
+  | [k; x; p] => if lbeq k (B "qg") then Some (OQg x p) else None
   | _ => None
   end.
 
@@ -471,18 +481,19 @@ Section Run.
         end
     else (dash, dash).
 
-  Definition step (mode : bytes) (root : node) (o : op) : option (bytes * bytes * bytes * node) :=
+  Definition step (mode : bytes) (root : node) (o : op) : option (bytes * bytes * bytes * node * list sigmsg) :=
     match o with
+    | OPn _ _ _ | OQg _ _ | OQs _ _ _ => None
     | OCall c =>
         let '(ef, root') := dispatch bh root c in
         let '(sp, cl) := call_spec mode root c in
-        Some (render_effects ef, sp, cl, root')
+        Some (render_effects ef, sp, cl, root', ef_signals ef)
     | OIntro path =>
         match get_child root (segs_of path) with
         | Some n =>
-            Some (intro_model n ++ bar ++ bar, intro_spec n ++ bar ++ bar, dash, root)
+            Some (intro_model n ++ bar ++ bar, intro_spec n ++ bar ++ bar, dash, root, [])
         | None =>
-            Some (B "EUnknownObject=*||||", B "EUnknownObject=*||||", dash, root)
+            Some (B "EUnknownObject=*||||", B "EUnknownObject=*||||", dash, root, [])
         end
     | OPm path name args =>
         match find_method d name with
@@ -494,7 +505,7 @@ Section Run.
                                     render_pres (px_res x) ++ bar ++ render_log (px_log x) ++ bar
                         | None => dash
                         end in
-              Some (render_pres r ++ bar ++ render_log (ef_log ef) ++ bar ++ render_sigs (ef_signals ef), sp, dash, root')
+              Some (render_pres r ++ bar ++ render_log (ef_log ef) ++ bar ++ render_sigs (ef_signals ef), sp, dash, root', ef_signals ef)
             else None
         | None => None
         end
@@ -508,7 +519,7 @@ Section Run.
                                     render_pres (px_res x) ++ bar ++ render_log (px_log x) ++ bar
                         | None => dash
                         end in
-              Some (render_pres r ++ bar ++ render_log (ef_log ef) ++ bar ++ render_sigs (ef_signals ef), sp, dash, root')
+              Some (render_pres r ++ bar ++ render_log (ef_log ef) ++ bar ++ render_sigs (ef_signals ef), sp, dash, root', ef_signals ef)
             else None
         | None => None
         end
@@ -526,7 +537,7 @@ Section Run.
                                             end)
                                | None => (dash, dash)
                                end in
-              Some (render_pres r ++ bar ++ render_log (ef_log ef) ++ bar ++ render_sigs (ef_signals ef), sp, cl, root')
+              Some (render_pres r ++ bar ++ render_log (ef_log ef) ++ bar ++ render_sigs (ef_signals ef), sp, cl, root', ef_signals ef)
             else None
         | None => None
         end
@@ -538,7 +549,7 @@ Section Run.
               | Some m =>
                   let r := match proxy_recv path d s m with Some r => r | None => PNone end in
                   Some (render_pres r ++ bar ++ bar ++ render_sig m,
-                        render_pres (spec_proxy_recv args) ++ bar ++ bar ++ star, dash, root)
+                        render_pres (spec_proxy_recv args) ++ bar ++ bar ++ star, dash, root, [m])
               | None => None
               end
             else None
@@ -546,12 +557,96 @@ Section Run.
         end
     end.
 
-  Fixpoint steps (mode : bytes) (root : node) (os : list op) : option (list (bytes * bytes * bytes)) :=
+  (* ---- persistent proxy instances (slots) with their property caches *)
+  Record slot := { sl_name : bytes; sl_path : bytes; sl_cached : bool; sl_cache : pcache }.
+
+  Definition find_slot (n : bytes) (l : list slot) : option slot := find (fun s => lbeq (sl_name s) n) l.
+  Definition set_slot_cache (n : bytes) (c : pcache) (l : list slot) : list slot :=
+    map (fun s => if lbeq (sl_name s) n
+                  then {| sl_name := sl_name s; sl_path := sl_path s; sl_cached := sl_cached s; sl_cache := c |} else s) l.
+  (* every cache catches up with the signals of the op (the driver synchronises after every op) *)
+  Definition apply_signals (sigs : list sigmsg) (l : list slot) : list slot :=
+    map (fun s => {| sl_name := sl_name s; sl_path := sl_path s; sl_cached := sl_cached s;
+                     sl_cache := fold_left (cache_apply d (sl_path s)) sigs (sl_cache s) |}) l.
+
+  Definition star3 : bytes := star ++ bar ++ star.
+
+  Definition slot_step (root : node) (slots : list slot) (o : op)
+    : option (bytes * bytes * bytes * node * list sigmsg * list slot) :=
+    match o with
+    | OPn name cached path =>
+        match find_slot name slots with
+        | Some _ => None
+        | None => Some (B "O||", dash, dash, root, [],
+                        slots ++ [{| sl_name := name; sl_path := path; sl_cached := cached; sl_cache := CNone |}])
+        end
+    | OQg name pname =>
+        match find_slot name slots, find_prop d pname with
+        | Some s, Some p =>
+            if readable p then
+              let '(r, ef, root', c') :=
+                if sl_cached s then cached_get bh root (sl_path s) d p (sl_cache s)
+                else let '(r, ef, root') := proxy_get bh root (sl_path s) d p in (r, ef, root', sl_cache s) in
+              let '(sp, cl) :=
+                match registered root (sl_path s) (id_name d) with
+                | Some i =>
+                    (* a `const` property may legitimately be served from the cache for ever *)
+                    if sl_cached s && match eff_emits p with EConst => true | _ => false end then (dash, dash)
+                    else (render_pres (px_res (spec_proxy_get bh i p)) ++ bar ++ star3,
+                          match eff_emits p, get_val pname (in_vals i) with
+                          | ETrue, Some v => if sl_cached s then
+                                               match getter_error bh i p v with
+                                               | Some _ => class28_tok ChangedGetterFails
+                                               | None => dash
+                                               end
+                                             else dash
+                          | _, _ => dash
+                          end)
+                | None => (dash, dash)
+                end in
+              Some (render_pres r ++ bar ++ render_log (ef_log ef) ++ bar ++ render_sigs (ef_signals ef), sp, cl, root',
+                    ef_signals ef, set_slot_cache name c' slots)
+            else None
+        | _, _ => None
+        end
+    | OQs name pname v =>
+        match find_slot name slots, find_prop d pname with
+        | Some s, Some p =>
+            if writable p && has_ty v (pd_ty p) then
+              let '(r, ef, root') := proxy_set bh root (sl_path s) d p v in
+              let '(sp, cl) := match registered root (sl_path s) (id_name d) with
+                               | Some i => let x := spec_proxy_set bh i p v in
+                                           (render_pres (px_res x) ++ bar ++ render_log (px_log x) ++ bar ++ star,
+                                            match setter_error bh i p v, eff_emits p, getter_error bh i p v with
+                                            | None, ETrue, Some _ => class28_tok ChangedGetterFails
+                                            | _, _, _ => dash
+                                            end)
+                               | None => (dash, dash)
+                               end in
+              Some (render_pres r ++ bar ++ render_log (ef_log ef) ++ bar ++ render_sigs (ef_signals ef), sp, cl, root',
+                    ef_signals ef, slots)
+            else None
+        | _, _ => None
+        end
+    | _ => match step (B "33") root o with
+           | Some (m, sp, cl, root', sigs) => Some (m, sp, cl, root', sigs, slots)
+           | None => None
+           end
+    end.
+
+  Fixpoint steps (mode : bytes) (root : node) (slots : list slot) (os : list op) : option (list (bytes * bytes * bytes)) :=
     match os with
     | [] => Some []
     | o :: r =>
-        match step mode root o with
-        | Some (m, s, c, root') => match steps mode root' r with Some l => Some ((m, s, c) :: l) | None => None end
+        match (match o with
+               | OPn _ _ _ | OQg _ _ | OQs _ _ _ => slot_step root slots o
+               | _ => match step mode root o with
+                      | Some (m, sp, cl, root', sigs) => Some (m, sp, cl, root', sigs, slots)
+                      | None => None
+                      end
+               end) with
+        | Some (m, s, c, root', sigs, slots') =>
+            match steps mode root' (apply_signals sigs slots') r with Some l => Some ((m, s, c) :: l) | None => None end
         | None => None
         end
     end.
@@ -571,7 +666,7 @@ Definition run_case (line : bytes) : outp :=
             if desc_ok d then
               match parse_layout d lt, all_some (map parse_op ops) with
               | Some root, Some os =>
-                  match steps d m root os with
+                  match steps d m root [] os with
                   | Some l => {| o_model := join semi (map (fun e => fst (fst e)) l);
                                  o_spec := join semi (map (fun e => snd (fst e)) l);
                                  o_class := join semi (map snd l) |}
